@@ -235,6 +235,38 @@ func (p *Program) callbackInfoOf(f *ssa.Function) *callbackInfo {
 			ci.forwards = true
 		}
 	}
+	var addType func(t types.Type, depth int)
+	addType = func(t types.Type, depth int) {
+		if t == nil || depth > 4 {
+			return
+		}
+		if rel, name, ok := namedOf(t); ok {
+			k := rel + "." + name
+			if ci.types[k] && depth > 0 {
+				return
+			}
+			ci.types[k] = true
+		}
+		switch u := t.Underlying().(type) {
+		case *types.Pointer:
+			addType(u.Elem(), depth+1)
+		case *types.Struct:
+			for i := 0; i < u.NumFields(); i++ {
+				addType(u.Field(i).Type(), depth+1)
+			}
+		case *types.Slice:
+			addType(u.Elem(), depth+1)
+		case *types.Array:
+			addType(u.Elem(), depth+1)
+		case *types.Map:
+			addType(u.Key(), depth+1)
+			addType(u.Elem(), depth+1)
+		case *types.Interface:
+			if depth > 0 {
+				ci.forwards = true // an interface-typed field: anything may be inside
+			}
+		}
+	}
 	var scan func(g *ssa.Function)
 	scan = func(g *ssa.Function) {
 		forEachInstr(g, func(ins ssa.Instruction) {
@@ -248,17 +280,16 @@ func (p *Program) callbackInfoOf(f *ssa.Function) *callbackInfo {
 				case *ssa.MakeClosure:
 					ci.funcs[v.Fn.(*ssa.Function)] = true
 				}
-				if rel, name, ok := namedOf((*op).Type()); ok {
-					ci.types[rel+"."+name] = true
-				}
 			}
-			if mc, ok := ins.(*ssa.MakeClosure); ok {
-				ci.funcs[mc.Fn.(*ssa.Function)] = true
-			}
-			if v, ok := ins.(ssa.Value); ok {
-				if rel, name, ok := namedOf(v.Type()); ok {
-					ci.types[rel+"."+name] = true
-				}
+			switch x := ins.(type) {
+			case *ssa.MakeClosure:
+				ci.funcs[x.Fn.(*ssa.Function)] = true
+			case *ssa.MakeInterface:
+				// a concrete value handed to someone as an interface: its methods
+				// (and those of what it contains) may be called back
+				addType(x.X.Type(), 0)
+			case *ssa.ChangeInterface:
+				ci.forwards = true
 			}
 		})
 		for _, af := range g.AnonFuncs {
